@@ -64,8 +64,8 @@ func panicSite() string {
 			if first == "" {
 				first = fn
 			}
-			if strings.HasPrefix(fn, modulePrefix) && !strings.Contains(fr.File, "zz_verif_") && !strings.Contains(fn, "/zzc12.") && !strings.Contains(fn, "/zzverif.") {
-				return strings.TrimPrefix(fn, modulePrefix+"/")
+			if (strings.HasPrefix(fn, modulePrefix+"/") || strings.HasPrefix(fn, modulePrefix+".")) && !strings.Contains(fr.File, "zz_verif_") && !strings.Contains(fn, "/zzc12.") && !strings.Contains(fn, "/zzverif.") {
+				return strings.TrimPrefix(strings.TrimPrefix(fn, modulePrefix+"/"), modulePrefix+".")
 			}
 		}
 		if !more {
